@@ -75,6 +75,10 @@ TARGETS = [
     ("split-json", "split+jsonfile://rel.jsonl?count={count}&suffix-length={sl}"),
     ("split-csv", "split+csvfile://sub/rel.csv?count={count}&suffix-length={sl}"),
     ("split-stream", "split://rel.records?count={count}&suffix-length={sl}"),
+    # names that look like URL escapes are just names
+    ("stream", "/simfs/o%41.records"),
+    ("json", "jsonfile:///simfs/p%2Fq.jsonl"),
+    ("split-stream", "split:///simfs/s%20t.records?count={count}&suffix-length={sl}"),
 ]
 TERMINATORS = ["c", "cc", "fc", "X", "R", "Xc"]  # c close, f flush, X with-exit, R with body raising then exit
 BODIES = [""]
@@ -86,6 +90,7 @@ POOL = {
     "D0": ["c17/a", [["varint", "n"], ["string", "s"]]],
     "D1": ["c17/b", [["varint", "n"], ["string", "s"], ["boolean", "f"]]],
     "D2": ["c17/a", [["varint", "n"], ["datetime", "t"]]],
+    "D3": ["sqlite3/c17", [["varint", "n"], ["string", "s"]]],
 }
 
 
@@ -127,7 +132,7 @@ def generate(rng, tier, index):
     multi = tkind not in ("avro",) and rng.random() < 0.6
     ops = []
     for i in range(n):
-        ops.append({"op": "write", "desc": rng.choice(["D0", "D1", "D2"]) if multi else "D0"})
+        ops.append({"op": "write", "desc": rng.choice(["D0", "D1", "D2", "D3"]) if multi else "D0"})
         if rng.random() < 0.15:
             ops.append({"op": "flush"})
     term = rng.choice(TERMINATORS)
@@ -149,7 +154,7 @@ def gen_archive(rng, tier):
     for _ in range(n_ops):
         r = rng.random()
         if r < 0.55:
-            op = {"op": "write", "s": rng.choice(["a", "b", "c"])}
+            op = {"op": "write", "s": rng.choice(["a", "b", "c", "A", "%41", "a b"])}
             if rng.random() < 0.25:
                 op["skew_us"] = rng.choice([-3600, 3600, -86400, 7200, -1]) * 1000000  # record stamped by another host
             ops.append(op)
@@ -268,7 +273,7 @@ def decode_target(w, kind, path, data):
         elif base == "text":
             ids = []
             for line in data.decode("utf-8").splitlines():
-                if line.startswith("<c17/"):
+                if line.startswith("<") and " n=" in line:
                     ids.append(int(line.split("n=", 1)[1].split(" ", 1)[0].rstrip(">")))
             res["ind"] = ids
         elif base == "avro":
@@ -352,6 +357,8 @@ def run_history(plan, w, viols, states):
                     rec = pool.make("D2", [n, enc_value(_dt.datetime(2024, 1, 2, 3, 4, 5, tzinfo=_dt.timezone.utc))])
                 elif desc == "D1":
                     rec = pool.make("D1", [n, "v%d" % n, bool(n % 2)])
+                elif desc == "D3":
+                    rec = pool.make("D3", [n, "v%d" % n])
                 else:
                     rec = pool.make("D0", [n, "v%d" % n])
                 if neighbour is not None:
@@ -468,11 +475,21 @@ def check_history(plan, w, kind, uri, scratch, model, shape, add):
             add(_viol("C17.lost", "%s writer produced %d files, expected 1 (history %s)" % (kind, len(files), hist)))
             return
         path, data = files[0]
+        named = uri.split("://", 1)[-1].split("?", 1)[0]
+        named = named if named.startswith("/") else "/simfs/cwd/" + named
+        if path != named:
+            add(_viol("C17.placement", "%s writer was given %s but wrote %s" % (kind, named, path), {"kind": kind, "history": hist}))
         res = decode_target(w, kind, path, data)
         judge_file(add, kind, hist, want_ids, model, res, w, empty_ok_kinds=True)
         return
     # ---- split ------------------------------------------------------------------------------------
     limit = plan["count"]
+    named = uri.split("://", 1)[-1].split("?", 1)[0]
+    named = named if named.startswith("/") else "/simfs/cwd/" + named
+    stem = named[: named.index(".", named.rindex("/"))] if "." in named[named.rindex("/") :] else named
+    for pth, _ in files:
+        if not pth.startswith(stem + "."):
+            add(_viol("C17.placement", "split part %s is not named after the target %s" % (pth, named), {"kind": kind, "history": hist}))
     all_ind, all_lib = [], []
     lib_ok = True
     for i, (path, data) in enumerate(files):
